@@ -274,22 +274,27 @@ void binary_impl(std::string const& s, i128 c1, i128 c2)
     };
     if (s == "plus") {
         ev("dur", "plus", kv("ret", val((a + b).count())));
-        if constexpr (requires { (ta + b).time_since_epoch(); (a + tb).time_since_epoch(); }) {
+        // the operators must exist with the RESULT TYPE of [time.point.nonmember]: in etl `sys_days + days` would otherwise
+        // resolve through the implicit sys_days -> weekday conversion (outside C12, and it overflows near 2^31)
+        if constexpr (with_tp and requires {
+                          requires std::is_same_v<decltype(ta + b), ch::time_point<Clock, CD>>;
+                          requires std::is_same_v<decltype(a + tb), ch::time_point<Clock, CD>>;
+                      }) {
             ev("tp", "plus", kv("ret", val((ta + b).time_since_epoch().count())));
             ev("tp", "rplus", kv("ret", val((a + tb).time_since_epoch().count())));
-        } else {
+        } else if constexpr (with_tp) {
             unsupported("time_point + duration, duration + time_point (no such operators)");
         }
     } else if (s == "minus") {
         ev("dur", "minus", kv("ret", val((a - b).count())));
-        if constexpr (requires { (ta - b).time_since_epoch(); }) {
+        if constexpr (with_tp and requires { requires std::is_same_v<decltype(ta - b), ch::time_point<Clock, CD>>; }) {
             ev("tp", "minus", kv("ret", val((ta - b).time_since_epoch().count())));
-        } else {
+        } else if constexpr (with_tp) {
             unsupported("time_point - duration (no such operator)");
         }
-        if constexpr (requires { (ta - tb).count(); }) {
+        if constexpr (with_tp and requires { requires std::is_same_v<decltype(ta - tb), CD>; }) {
             ev("tp", "diff", kv("ret", val((ta - tb).count())));
-        } else {
+        } else if constexpr (with_tp) {
             unsupported("time_point - time_point (no such operator)");
         }
     } else if (s == "mod") {
@@ -298,7 +303,7 @@ void binary_impl(std::string const& s, i128 c1, i128 c2)
         ev("dur", "div", kv("ret", val(a / b)));
     } else if (s == "cmp") {
         ev("dur", "cmp", kv("ret", cmpvec(a, b)));
-        ev("tp", "cmp", kv("ret", cmpvec(ta, tb)));
+        if constexpr (with_tp) { ev("tp", "cmp", kv("ret", cmpvec(ta, tb))); }
     } else if (s == "common") {
         ev("dur", "common", kv("ret", "[" + val(CD(a).count()) + "," + val(CD(b).count()) + "]") + kv("pn", wide((i128)CD::period::num))
                                 + kv("pd", wide((i128)CD::period::den)) + ks("cr", std::is_same_v<typename CD::rep, double> ? "f64"
@@ -548,7 +553,11 @@ int main(int argc, char** argv)
         std::fprintf(stderr, "usage: duration_driver <inputs.ndjson>   (built for period index %d)\n", VH_PI);
         return 2;
     }
-    for (auto const& in : vh::read_ndjson(argv[1])) { dispatch<VH_PI>(in, std::make_integer_sequence<int, NP>{}); }
+    bool const flush_each = std::getenv("VH_DOMAIN_ONLY") != nullptr; // sanitizer runs: a stop loses no completed call
+    for (auto const& in : vh::read_ndjson(argv[1])) {
+        dispatch<VH_PI>(in, std::make_integer_sequence<int, NP>{});
+        if (flush_each) { flush_out(); }
+    }
     flush_out();
     return 0;
 }
